@@ -7,7 +7,9 @@ import (
 	"fmt"
 	"os"
 	"path/filepath"
+	"strconv"
 	"strings"
+	"time"
 
 	"github.com/pgavlin/dawn/diff"
 	"github.com/pgavlin/dawn/label"
@@ -255,7 +257,25 @@ func (f *function) evaluate() (data string, changed bool, err error) {
 	b64.Close()
 
 	f.oldEnv = f.newEnv
-	return buf.String(), true, nil
+	return newStamp(buf.String()), true, nil
+}
+
+// newStamp returns the stamp of an execution that left the given pickled environment: the
+// environment prefixed with an identifier of the execution. The target's dependents compare stamps,
+// so they can tell that the target re-executed even when they are built by a later process (a
+// partial build of the target, or a build that died before they ran) and the environment did not
+// change. The separator is not part of the base64 alphabet the environment is written in.
+func newStamp(env string) string {
+	return strconv.FormatInt(time.Now().UnixNano(), 36) + ":" + env
+}
+
+// stampEnv returns the pickled environment recorded in a stamp. Stamps written before executions
+// were identified consist of the environment only.
+func stampEnv(stamp string) string {
+	if i := strings.IndexByte(stamp, ':'); i >= 0 {
+		return stamp[i+1:]
+	}
+	return stamp
 }
 
 func (f *function) load() error {
@@ -279,7 +299,7 @@ func (f *function) load() error {
 	if len(info.Data) == 0 {
 		f.oldEnv = starlark.None
 	} else {
-		b64 := base64.NewDecoder(base64.StdEncoding, strings.NewReader(info.Data))
+		b64 := base64.NewDecoder(base64.StdEncoding, strings.NewReader(stampEnv(info.Data)))
 		f.oldEnv, err = pickle.NewDecoder(b64, pickle.UnpicklerFunc(envUnpickler)).Decode()
 		if err != nil {
 			return fmt.Errorf("loading prior function environment: %w", err)
